@@ -32,7 +32,7 @@ func TestMain(m *testing.M) {
 
 // Op is one step.
 type Op struct {
-	Kind   string `json:"kind"`   // sub | cancel | emit | burst
+	Kind   string `json:"kind"`   // sub | cancel | emit | burst | stats | trace (N: 1 on, 0 off; Obj: which object)
 	Slot   int    `json:"slot"`   // subscriber slot
 	Signal string `json:"signal"` // boom | delay
 	N      int    `json:"n,omitempty"`
@@ -65,7 +65,7 @@ func genCase(t *rapid.T) Case {
 	steps := rapid.IntRange(2, 25).Draw(t, "steps")
 	for i := 0; i < steps; i++ {
 		op := Op{
-			Kind:   rapid.SampledFrom([]string{"sub", "sub", "sub", "cancel", "emit", "emit", "emit", "emit", "burst"}).Draw(t, "kind"),
+			Kind:   rapid.SampledFrom([]string{"sub", "sub", "sub", "cancel", "emit", "emit", "emit", "emit", "burst", "sub", "cancel", "emit", "stats", "trace"}).Draw(t, "kind"),
 			Slot:   rapid.IntRange(0, n-1).Draw(t, "slot"),
 			Signal: rapid.SampledFrom([]string{"boom", "boom", "delay"}).Draw(t, "signal"),
 		}
@@ -74,6 +74,12 @@ func genCase(t *rapid.T) Case {
 		}
 		if op.Kind == "emit" || op.Kind == "burst" {
 			op.Obj = rapid.SampledFrom([]int{0, 0, 1}).Draw(t, "emitter")
+		}
+		if op.Kind == "stats" || op.Kind == "trace" {
+			// the object's statistics or tracing are switched on or off (the
+			// generic object actions every client may call)
+			op.Obj = rapid.SampledFrom([]int{0, 0, 1}).Draw(t, "observed")
+			op.N = rapid.SampledFrom([]int{1, 1, 0}).Draw(t, "onoff")
 		}
 		c.Ops = append(c.Ops, op)
 	}
@@ -246,6 +252,11 @@ func checkCase(c Case) error {
 		}
 		defer rawc.Close()
 	}
+	admin, err := netkit.Dial(env.Addr)
+	if err != nil || !admin.Authenticate("u", "t", bound) {
+		return vt.Violationf("C13:setup", "admin client: %v", err)
+	}
+	defer admin.Close()
 	slots := make([]*slot, len(c.Places))
 	for i, p := range c.Places {
 		s := &slot{place: p, subs: map[string]*subscription{}}
@@ -361,6 +372,20 @@ func checkCase(c Case) error {
 	for i, op := range c.Ops {
 		s := slots[op.Slot]
 		switch op.Kind {
+		case "stats", "trace":
+			action := uint32(81)
+			if op.Kind == "trace" {
+				action = 85
+			}
+			oid := uint32(1)
+			if op.Obj%2 == 1 {
+				oid = obj2
+			}
+			if f, ok := admin.CallWait(sid, oid, action, []byte{byte(op.N & 1)}, bound); !ok || f.Type != netkit.Reply {
+				return vt.Violationf("C13:setup", "step %d: %s(%d) on object %d answered %v", i, op.Kind, op.N, oid, f)
+			}
+			vt.Label("stats-or-trace-toggled")
+			continue
 		case "sub":
 			if _, active := s.subs[op.Signal]; active {
 				continue
